@@ -70,6 +70,15 @@ CHECKS = {
             "Machine-level cadence (WAIT/HALT cycles through CoreRuntime::step / PCE500Emulator.step) is covered by C12's "
             "drivers, not here; periods above 7 are covered by directed sequences only.",
             "DESIGN.md section 4, C13"),
+    "C18": ("model_checking",
+            "exhaustive enumeration (in Rust, on the real AsyncDriver) of task sets x budget partitions against a reference "
+            "discrete-event scheduler; async-vs-sync CPU equivalence on the machine driver",
+            "Every task set of the stated families (1-4 cooperative tasks, all sleep/emit/pending scripts up to the stated "
+            "length) is run under every budget sequence up to the stated length plus a drain on the real scheduler; the "
+            "resumption log must be a prefix of / equal to the reference log and events must come back exactly once in order.",
+            "Durations come from {0,1,2,3,5}; budgets from {1,2,3,4,7}; larger sets/scripts are not explored. Budget "
+            "accounting itself (whether a task due exactly at the budget edge runs) is not part of the statement.",
+            "DESIGN.md section 4, C18"),
     "C17": ("exploration",
             "complete comparison of a finite configuration space: all 256 opcode rows and every duplicated constant, "
             "private Rust tables observed behaviourally through LlamaExecutor::execute",
